@@ -24,6 +24,7 @@ class PathMgr:
         self.static_objs: Dict[int, Any] = {}
         self.static_ids: Dict[Any, int] = {}
         self._next_static = -1
+        self._next_global = 900_000
         self.classes: List[ClassInfo] = []
         for c in all_builtin_classes():
             self._register_class(c)
@@ -57,6 +58,13 @@ class PathMgr:
             return smt.mk_ref(obj.cid)
         if key is not None and key in self.static_ids:
             return smt.mk_ref(self.static_ids[key])
+        if key is not None and isinstance(key, str) and key.startswith('global:'):
+            # process-global *instances* are ordinary pre-existing heap objects with a stable id
+            sid = self._next_global
+            self._next_global += 1
+            self.static_ids[key] = sid
+            self.static_objs[sid] = obj
+            return smt.mk_ref(sid)
         if key is not None:
             sid = self._next_static
             self._next_static -= 1
@@ -105,6 +113,7 @@ class PathMgr:
         self.solver = z3.Solver()
         self.solver.set('timeout', 5000)
         self._solver_bg = 0
+        self._bg_done: set = set()
         self.log: List[str] = []
         self.oracle_events: List[Any] = []
 
@@ -147,10 +156,21 @@ class PathMgr:
 
     # ------------------------------------------------------------------ solver plumbing
     def _sync_solver(self) -> z3.Solver:
-        s = z3.Solver()
-        s.set('timeout', 5000)
-        s.add(*self.background())
-        s.add(*self.pc)
+        """incremental per-path solver: pc conjuncts are added as they arise (see _add_pc);
+        subclass facts are flushed for classes touched since the last call"""
+        s = self.solver
+        used = sorted(self.classes_used)
+        if len(used) != self._solver_bg:
+            done = self._bg_done
+            for a in used:
+                ca = self.static_objs[a]
+                mro_ids = {b.cid for b in ca.mro()}
+                for b in used:
+                    if (a, b) in done:
+                        continue
+                    done.add((a, b))
+                    s.add(smt.sub(a, b) if b in mro_ids else z3.Not(smt.sub(a, b)))
+            self._solver_bg = len(used)
         return s
 
     def feasible(self, extra=None) -> bool:
@@ -158,8 +178,11 @@ class PathMgr:
         t = time.time()
         s = self._sync_solver()
         if extra is not None:
+            s.push()
             s.add(extra)
         r = s.check()
+        if extra is not None:
+            s.pop()
         self.stats['solver_s'] += time.time() - t
         return r != z3.unsat
 
@@ -173,8 +196,10 @@ class PathMgr:
         self.stats['feas_checks'] += 1
         t = time.time()
         s = self._sync_solver()
+        s.push()
         s.add(z3.Not(c))
         r = s.check()
+        s.pop()
         self.stats['solver_s'] += time.time() - t
         return r == z3.unsat
 
@@ -216,6 +241,7 @@ class PathMgr:
         if z3.is_true(c):
             return
         self.pc.append(c)
+        self.solver.add(c)
         self._learn(c)
 
     def _learn(self, c) -> None:
@@ -326,7 +352,12 @@ class PathMgr:
         by this path: its id is below the allocation counter (keeps fresh objects unaliased)."""
         if smt.static_id(v) is not None:
             return
-        self._add_pc(z3.Implies(Val.is_ref(v), Val.r(v) < self.next_ref))
+        T, F = builtin_class('type'), builtin_class('function')
+        self.use_class(T)
+        self.use_class(F)
+        r = Val.r(v)
+        self._add_pc(z3.Implies(Val.is_ref(v), z3.And(r < self.next_ref, z3.Implies(
+            r < 0, z3.Or(smt.cls_of(r) == T.cid, smt.cls_of(r) == F.cid)))))
 
     def class_of(self, v) -> Optional[ClassInfo]:
         """exact or upper-bound class known for a Val (no solver call)"""
